@@ -33,6 +33,13 @@ func runAll(prop, dir, tier string, seed int64, scenarios []*Scenario, rule stri
 		run.Res.Evaluations++
 		run.AddCase(id, e.Coq, e.Desc())
 		key := fmt.Sprintf("%s/%s/%s", s.Stream, strings.SplitN(s.Mut, "-other-", 2)[0], s.Transport)
+		if s.Stream == "signed" {
+			fl := "absent"
+			if s.SP.AuthnRequestsSigned != nil {
+				fl = *s.SP.AuthnRequestsSigned
+			}
+			key += fmt.Sprintf("/sp=%s/idp=%s/sign=%v/key=%s/certs=%d", fl, s.Want, s.Sign != "", s.SignKey, len(s.SP.Certs))
+		}
 		run.Count("stream=" + s.Stream)
 		run.Count(fmt.Sprintf("reply=%s", e.Rep.Kind))
 		if e.Obs.Status != "" {
@@ -193,14 +200,14 @@ func OracleC05(e *Exec) (string, string) {
 	c := e.Obs.Creates[0]
 	signedTriple := false
 	for _, t := range e.S.SignedTriples {
-		if t[0] == msg && t[1] == relay && t[2] == sigalg {
+		if t[0] == msg && t[1] == relay && t[2] == sigalg && (t[3] == sig || sig == "") {
 			signedTriple = true
 		}
 	}
 	// embedded signature value of the document acted on
 	embedded := e.Abs.Dec != nil && e.Abs.Dec.Signature != nil && e.Abs.Dec.Signature.SignatureValue.Text != ""
 	if binding == idp.RedirBinding {
-		if required && !signedTriple {
+		if required && !(signedTriple && sig != "") {
 			return "accepted-unsigned:redirect-required", fmt.Sprintf("signing required, accepted (SigAlg %q, Signature %d bytes) but the SP never signed this (message, RelayState, SigAlg)", sigalg, len(sig))
 		}
 		if sig != "" && !signedTriple {
@@ -220,8 +227,8 @@ func OracleC05(e *Exec) (string, string) {
 	if embedded && !e.S.SignedDocOK {
 		return "accepted-bad-signature:post", "enveloped signature does not verify"
 	}
-	if sig != "" {
-		return "accepted-unverified-detached-signature:post", "Signature form parameter present in a POST-binding request was not verified"
+	if sig != "" && !signedTriple {
+		return "accepted-bad-signature:detached-in-post-form", "non-verifying Signature form parameter in a POST-binding request was ignored and the request accepted"
 	}
 	return "", ""
 }
